@@ -47,10 +47,16 @@ def run(ctx):
                 ctx.disagree("enc", line, str(r["model"]), "bytes", "spec decoder rejects the writer's bytes")
             continue
         bad = []
+        unexplained = []
         for i, ch in enumerate(r["chunks"]):
             for f in FIELDS:
                 if ch.get(f) != "1":
                     bad.append("chunk %d: %s" % (i, f))
+            if ch.get("explains", "ok") != "ok":
+                # structural reachability: the observed table must be what the training model can produce for SOME
+                # merge/Huffman oracle (quantile cuts at value boundaries, consecutive merges, folded divisors, run-length
+                # rule). A failure here is a correspondence break unless a C10 conjunct also fails.
+                unexplained.append("chunk %d: %s" % (i, ch["explains"]))
             if ch.get("grouped") == "1":
                 bb = int(ch["bodybits"])
                 if (bb + 7) // 8 != int(ch["bodybytes"]):
@@ -64,6 +70,11 @@ def run(ctx):
         for m, ch in zip(r["metas"], c["chunks"]):
             if m["n"] != len(ch):
                 bad.append("returned n != chunk length")
+        if unexplained:
+            ctx.count("unexplained-tables", len(unexplained))
+            ctx.disagree("enc(explains)", line, "; ".join(unexplained[:3]), r["impl"][:400], "observed prefix table is not reachable by the training model under any oracle")
+        else:
+            ctx.count("explained-tables", len(r["chunks"]))
         if bad:
             ctx.violation("chunk metadata misdescribes the chunk: " + "; ".join(bad[:6]), line, "all C10 conjuncts hold",
                           r["impl"][:600] + " :: " + r["model"][:800], kind="impl-failing-input")
